@@ -110,8 +110,27 @@ struct World {
   Slot s[3];
   size_t n = 0;
   unsigned transitions = 0;
+  // allocation-failure injection: `arm` = k makes the k-th library allocation of the NEXT library call fail
+  long arm = 0, fail_seen = 0;
+  bool armed_active = false;
   World(Ctx &ctx) : c(ctx) {}
+  void arm_now() { if (arm > 0) { armed_active = true; vp::alloc_fail_after(arm); arm = 0; } }
+  // -> an injected failure happened during the call
+  bool disarm() {
+    if (armed_active) { vp::alloc_fail_after(0); armed_active = false; }
+    long f = vp::alloc_failures();
+    bool hit = f > fail_seen;
+    fail_seen = f;
+    return hit;
+  }
 };
+// does the identifier hold exactly this content? (used where an API has no way to report a failed allocation)
+static bool reads_as(const identifier *id, const Model &m) {
+  if (!m) return id->_len == 0;
+  size_t want = m.binary ? m->size() : m->size() + 1;
+  const char *d = (const char *)mpt_identifier_data(id);
+  return id->_len == want && d && !memcmp(d, m->data(), m->size());
+}
 
 static std::string show(const Model &m) {
   if (!m) return "<none>";
@@ -172,10 +191,12 @@ static void check_all(World &w, const char *after) {
 }
 
 // ---- creation
-static void create(World &w, size_t i, int kind, size_t arg, const Slot *from) {
+// -> false: the creation was refused because of an injected allocation failure (nothing is left behind)
+static bool create(World &w, size_t i, int kind, size_t arg, const Slot *from) {
   Ctx &c = w.c;
   Slot &s = w.s[i];
   s.model.reset();
+  bool hit = false;
   switch (kind) {
     case KInit: {
       size_t size = kSizes[arg % 8];
@@ -189,7 +210,10 @@ static void create(World &w, size_t i, int kind, size_t arg, const Slot *from) {
       break;
     }
     case KNew: {
+      w.arm_now();
       s.id = mpt_identifier_new(arg);
+      hit = w.disarm();
+      if (!s.id && hit) return false;
       CK(c, s.id, "new-refused", "mpt_identifier_new(%zu) returned NULL", arg);
       s.kind = kind;
       c.logf("#%zu = mpt_identifier_new(%zu) (_max %u)", i, arg, (unsigned)s.id->_max);
@@ -198,7 +222,10 @@ static void create(World &w, size_t i, int kind, size_t arg, const Slot *from) {
     case KNode: {
       node_new_fn f = core_node_new();
       CK(c, f && f != &mpt_node_new, "harness", "libmptcore's mpt_node_new not found");
+      w.arm_now();
       s.nd = f(arg);
+      hit = w.disarm();
+      if (!s.nd && hit) return false;
       CK(c, s.nd, "new-refused", "mpt_node_new(%zu) returned NULL", arg);
       s.id = &s.nd->ident;
       s.kind = kind;
@@ -211,11 +238,14 @@ static void create(World &w, size_t i, int kind, size_t arg, const Slot *from) {
       s.block = malloc(t->size);
       memset(s.block, 0x5a, t->size);
       s.id = (identifier *)s.block;
+      w.arm_now();
       int r = t->init(s.block, from ? from->id : 0);
+      hit = w.disarm();
       if (r < 0) {
         // not constructed: nothing to finalise; whatever it allocated shows up as a leak
         free(s.block);
         s.block = 0; s.id = 0;
+        if (hit) return false;
         CK(c, false, "copy-refused", "identifier traits init(%s) returned %d", from ? show(from->model).c_str() : "NULL", r);
       }
       s.kind = kind;
@@ -236,16 +266,21 @@ static void create(World &w, size_t i, int kind, size_t arg, const Slot *from) {
     case KCxxCopy: {
       s.block = malloc(sizeof(identifier));
       memset(s.block, 0x5a, sizeof(identifier));
+      w.arm_now();
       if (from) { s.id = new (s.block) identifier(*from->id); s.model = from->model; }
       else s.id = new (s.block) identifier();
+      // a constructor cannot report a failed allocation: the copy is complete or empty
+      if (w.disarm() && from && !reads_as(s.id, from->model)) { s.model.reset(); c.label("inject:create:empty-copy"); }
       s.kind = kind;
       c.logf("#%zu = C++ identifier(copy of %s)", i, from ? show(from->model).c_str() : "nothing");
       break;
     }
     case KItem: {
+      w.arm_now();
       if (from && from->kind == KItem) { s.it = new item<metatype>(*from->it); s.model = from->model; c.label("item:copy-constructed"); }
       else s.it = new item<metatype>();
       s.id = s.it;
+      if (w.disarm() && from && from->kind == KItem && !reads_as(s.id, from->model)) { s.model.reset(); c.label("inject:create:empty-copy"); }
       s.kind = kind;
       c.logf("#%zu = C++ item<metatype>(%s) (_max %u)", i, s.model ? show(s.model).c_str() : "", (unsigned)s.id->_max);
       break;
@@ -260,6 +295,7 @@ static void create(World &w, size_t i, int kind, size_t arg, const Slot *from) {
     }
   }
   CK(c, s.id->_len == 0 || s.model, "init-state", "fresh identifier has _len %u", (unsigned)s.id->_len);
+  return true;
 }
 
 // ---- content generation
@@ -315,16 +351,20 @@ static void op_set(World &w, size_t i, const std::string &text, bool by_strlen) 
   Exact buf(text, by_strlen);
   int len = by_strlen ? -1 : (int)text.size();
   c.logf("set #%zu (%s, _max %u, %s) <- %s len=%d", i, kKind[s.kind], (unsigned)s.max(), show(s.model).c_str(), show(Model(text)).c_str(), len);
-  bool ok;
-  if (s.cxx()) ok = s.id->set_name(buf.p, len);
+  bool ok, hit;
+  w.arm_now();
+  if (s.cxx()) { ok = s.id->set_name(buf.p, len); hit = w.disarm(); }
   else {
     void *r = mpt_identifier_set(s.id, buf.p, len);
+    hit = w.disarm();
     ok = r != 0;
     if (ok) CK(c, r == mpt_identifier_data(s.id), "set-return", "mpt_identifier_set returned %p, data is at %p", r, mpt_identifier_data(s.id));
   }
+  if (hit) c.label(ok ? "inject:set:survived" : "inject:set:refused");
   if (text.size() <= 65534) {
-    CK(c, ok, "set-refused", "set of a %zu byte name refused (storage _max %u)", text.size(), (unsigned)s.max());
-    c.label("set:ok");
+    // only a failed allocation excuses a refusal; then everything must read back as before (checked below)
+    CK(c, ok || hit, "set-refused", "set of a %zu byte name refused (storage _max %u)", text.size(), (unsigned)s.max());
+    if (ok) c.label("set:ok");
   } else {
     c.label(ok ? "set:overlong-accepted" : "set:overlong-refused");
   }
@@ -337,7 +377,9 @@ static void op_clear(World &w, size_t i) {
   Slot &s = w.s[i];
   bool was = s.external();
   c.logf("clear #%zu (%s)", i, show(s.model).c_str());
+  w.arm_now();
   bool ok = s.cxx() ? s.id->set_name(0, 0) : mpt_identifier_set(s.id, 0, 0) != 0;
+  w.disarm();
   CK(c, ok, "clear-refused", "set(NULL, 0) refused");
   s.model.reset();
   check_all(w, "clear");
@@ -349,16 +391,19 @@ static void op_set_binary(World &w, size_t i, size_t n) {
   Slot &s = w.s[i];
   bool was = s.external();
   c.logf("set #%zu (%s, _max %u, %s) <- NULL len=%zu", i, kKind[s.kind], (unsigned)s.max(), show(s.model).c_str(), n);
-  bool ok;
-  if (s.cxx()) ok = s.id->set_name(0, (int)n);
+  bool ok, hit;
+  w.arm_now();
+  if (s.cxx()) { ok = s.id->set_name(0, (int)n); hit = w.disarm(); }
   else {
     void *r = mpt_identifier_set(s.id, 0, (int)n);
+    hit = w.disarm();
     ok = r != 0;
     if (ok) CK(c, r == mpt_identifier_data(s.id), "set-return", "mpt_identifier_set(NULL, %zu) returned %p, data is at %p", n, r, mpt_identifier_data(s.id));
   }
+  if (hit) c.label(ok ? "inject:set-binary:survived" : "inject:set-binary:refused");
   if (n <= 65535) {
-    CK(c, ok, "set-refused", "set of %zu bytes of binary data refused (storage _max %u)", n, (unsigned)s.max());
-    c.label("set-binary:ok");
+    CK(c, ok || hit, "set-refused", "set of %zu bytes of binary data refused (storage _max %u)", n, (unsigned)s.max());
+    if (ok) c.label("set-binary:ok");
   } else {
     c.label(ok ? "set-binary:overlong-accepted" : "set-binary:overlong-refused");
   }
@@ -381,20 +426,32 @@ static void op_copy(World &w, size_t dst, int src /* -1: NULL */) {
   bool was = d.external();
   const identifier *from = src < 0 ? 0 : w.s[src].id;
   c.logf("copy #%zu (%s, _max %u, %s) <- #%d %s", dst, kKind[d.kind], (unsigned)d.max(), show(d.model).c_str(), src, src < 0 ? "NULL" : show(w.s[src].model).c_str());
+  bool ok = true, hit;
+  w.arm_now();
   if (d.kind == KItem && src >= 0 && w.s[src].kind == KItem && (size_t)src != dst) {
     *d.it = *w.s[src].it;  // implicit item assignment
+    hit = w.disarm();
     c.label("copy:item=item");
+    if (hit) ok = reads_as(d.id, w.s[src].model);  // an assignment operator cannot report: complete or untouched
   } else if (d.cxx() && from) {
     if (d.kind == KItem) *d.it = *from;
     else *d.id = *from;
+    hit = w.disarm();
+    if (hit) ok = reads_as(d.id, w.s[src].model);
   } else {
     void *r = mpt_identifier_copy(d.id, from);
-    CK(c, r, "copy-refused", "mpt_identifier_copy returned NULL");
+    hit = w.disarm();
+    CK(c, r || hit, "copy-refused", "mpt_identifier_copy returned NULL");
+    ok = r != 0;
   }
-  if (src < 0) d.model.reset();
-  else d.model = w.s[src].model;
-  check_all(w, "copy");
-  if (src >= 0) check_equal(w, dst, src, "after copy");
+  if (hit) c.label(ok ? "inject:copy:survived" : "inject:copy:refused");
+  if (ok) {
+    if (src < 0) d.model.reset();
+    else d.model = w.s[src].model;
+  }
+  // after a failed copy the target (and everything else) must read back exactly as before
+  check_all(w, ok ? "copy" : "refused copy");
+  if (src >= 0 && ok) check_equal(w, dst, src, "after copy");
   if (src >= 0 && (size_t)src == dst) c.label("copy:self");
   else if (src < 0) c.label("copy:null");
   else note_transition(w, "copy", was, d.external());
@@ -562,7 +619,12 @@ static void create_drawn(World &w, size_t i) {
       break;
     }
   }
-  create(w, i, kind, arg, from);
+  if (!create(w, i, kind, arg, from)) {
+    // refused because of the injected failure (nothing may be left behind: leak oracle); the slot is needed, build it again
+    c.logf("#%zu: creation of kind %s refused under allocation failure", i, kKind[kind]);
+    c.label("inject:create:refused");
+    CK(c, create(w, i, kind, arg, from), "harness", "second creation failed");
+  }
   c.label((std::string("kind:") + kKind[kind]).c_str());
   if (from) note_transition(w, "copy-init", false, w.s[i].external());
 }
@@ -584,7 +646,7 @@ static void run(Ctx &c) {
   while (c.more() && ops < 60) {
     ++ops;
     size_t i = c.pick(n);
-    switch (c.weighted({8, 2, 6, 5, 3, 1, 3, 3})) {  // new operations are added at the end
+    switch (c.weighted({8, 2, 6, 5, 3, 1, 3, 3, 2})) {  // new operations are added at the end
       case 0: {
         size_t len = draw_len(c, w.s[i].max());
         std::string t = mk_content(c, len);
@@ -621,7 +683,58 @@ static void run(Ctx &c) {
         op_set_binary(w, i, len ? len : 1);
         break;
       }
-      default: op_locate(c); break;
+      case 7: op_locate(c); break;
+      default: {  // one step with the k-th library allocation failing
+        long k = 1 + (long)c.weighted({4, 1, 1});
+        size_t max_ = w.s[i].max();
+        switch (c.weighted({4, 2, 4, 2, 1, 1})) {
+          case 0: {  // text that needs an allocation
+            std::string t = mk_content(c, max_ + c.range(0, 300));
+            c.logf("inject: allocation %ld fails", k);
+            c.label("inject:set");
+            w.arm = k;
+            op_set(w, i, t, false);
+            break;
+          }
+          case 1:
+            c.logf("inject: allocation %ld fails", k);
+            c.label("inject:set-binary");
+            w.arm = k;
+            op_set_binary(w, i, max_ + 1 + c.range(0, 300));
+            break;
+          case 2: {
+            size_t src = n > 1 ? (i + 1 + c.pick(n - 1)) % n : i;
+            c.logf("inject: allocation %ld fails", k);
+            c.label("inject:copy");
+            w.arm = k;
+            op_copy(w, i, (int)src);
+            break;
+          }
+          case 3:
+            c.logf("release #%zu; inject: allocation %ld fails", i, k);
+            c.label("inject:create");
+            w.s[i].release();
+            w.arm = k;
+            create_drawn(w, i);
+            check_all(w, "re-creation");
+            break;
+          case 4: {  // no allocation needed: must succeed with the failure still pending
+            std::string t = mk_content(c, c.range(0, max_ ? max_ - 1 : 0));
+            c.label("inject:set-inline");
+            w.arm = k;
+            op_set(w, i, t, false);
+            break;
+          }
+          default:
+            c.label("inject:clear");
+            w.arm = k;
+            op_clear(w, i);
+            break;
+        }
+        w.arm = 0;
+        w.disarm();
+        break;
+      }
     }
   }
   if (w.transitions) c.nontrivial();
@@ -651,7 +764,9 @@ static void enum_set(World &w, size_t slot, size_t idx, size_t max_) {
   else op_set_binary(w, slot, enum_len(idx, max_));
 }
 static void run_enum(Ctx &c) {
-  size_t si = c.pick(6), pi = c.pick(14), ni = c.pick(14), op = c.pick(6), api = c.pick(2);
+  size_t si = c.pick(6), pi = c.pick(14), ni = c.pick(14), op = c.pick(12), api = c.pick(2);
+  bool inject = op >= 6;  // the same operation with its first library allocation failing
+  if (inject) op -= 6;
   World w(c);
   w.n = 1;
   if (si == 5) create(w, 0, KStatic, 0, 0);
@@ -660,14 +775,18 @@ static void run_enum(Ctx &c) {
   c.logf("enumerated: storage %s, previous %zu, new %zu, %s", si == 5 ? "static" : std::to_string(kSizes[si]).c_str(), pi, ni, op ? "copy" : "set");
   if (pi) enum_set(w, 0, pi, max_);
   if (op == 0) {
+    if (inject) { w.arm = 1; c.label("inject:enumerated"); }
     if (ni) enum_set(w, 0, ni, max_);
     else op_clear(w, 0);
+    w.arm = 0; w.disarm();
     if (w.s[0].model) { const char *how = "same"; op_compare(w, 0, *w.s[0].model, false, how); }
   } else {
     w.n = 2;
     create(w, 1, api ? KCxx : KInit, op - 1, 0);
     if (ni) enum_set(w, 1, ni, max_);
+    if (inject) { w.arm = 1; c.label("inject:enumerated"); }
     op_copy(w, 0, 1);
+    w.arm = 0; w.disarm();
     // the copy is independent of its source
     op_set(w, 1, "x", false);
     if (w.s[0].model) { op_compare(w, 0, *w.s[0].model, false, "same"); }
@@ -676,14 +795,14 @@ static void run_enum(Ctx &c) {
   c.nontrivial();
   for (size_t i = w.n; i-- > 0;) w.s[i].release();
 }
-static uint64_t enum_count(int) { return 6 * 14 * 14 * 6 * 2; }
+static uint64_t enum_count(int) { return 6 * 14 * 14 * 12 * 2; }
 static void enum_make(uint64_t idx, int, std::vector<uint8_t> &out) {
   out.clear();
   out.push_back(0xff);
   out.push_back(idx % 6); idx /= 6;
   out.push_back(idx % 14); idx /= 14;
   out.push_back(idx % 14); idx /= 14;
-  out.push_back(idx % 6); idx /= 6;
+  out.push_back(idx % 12); idx /= 12;
   out.push_back(idx % 2);
   for (int i = 0; i < 8; i++) out.push_back(0);  // content draws: pattern mode, seed 0
 }
@@ -729,7 +848,9 @@ static Target t = {
     "and set(NULL, n) (n zero bytes of non-character data; text compare must answer BadType). "
     "Locating by name: lists of 1-6 C nodes with repeated names out of a family (base, base+1 byte, base-1 byte, 300 bytes, empty, none), mpt_node_locate from any start node with pos -3..6, "
     "name passed as exact-size heap copy without terminator / segment followed by other bytes / terminated / explicit UTF8 charset, result compared with the model list. "
-    "exhaustive: {5 storage sizes, static initialiser} x previous content x new content (none, text 0,1,cap-1,cap,cap+1,cap+2,300, binary 1,max-1,max,max+1,max+2,300) x {set, copy from each of 5 storage sizes} x {C, C++}. "
+    "exhaustive: {5 storage sizes, static initialiser} x previous content x new content (none, text 0,1,cap-1,cap,cap+1,cap+2,300, binary 1,max-1,max,max+1,max+2,300) x {set, copy from each of 5 storage sizes} x {plain, first library allocation fails} x {C, C++}. "
+    "Allocation-failure injection (engine): a share of the steps runs set/set-binary/copy/creation with the k-th (1..3) library allocation failing: the call reports failure or succeeds completely, "
+    "after a reported failure every identifier reads back exactly as before, nothing leaks. "
     "non-trivial: at least one identifier switched between inline and external storage (by what _len/_max say after the operation); distinct by hash of the draw sequence.",
     run,
     {600, 1500},
